@@ -287,13 +287,13 @@ only where this typing holds (`keepsBare_sound`: the bare literal type-checks as
 literal), and on the primitive names it leaves bare every literal that has the field's type (`keepsBare_complete`): the
 conversion is applied exactly when the field type is not the literal's natural type. -/
 
-namespace Attr
+section LiteralConversion
 
 def intNames : List String := ["u8", "u16", "u32", "u64", "u128", "usize", "i8", "i16", "i32", "i64", "i128", "isize"]
 def floatNames : List String := ["f32", "f64"]
 
 /-- the literal has the type spelled `ty` -/
-def litHasType : LitV → TyShape → Bool
+def litHasType : Attr.LitV → Attr.TyShape → Bool
   | .int _ sfx, .path s => if sfx.isEmpty then intNames.contains s else sfx == s
   | .float sfx, .path s => if sfx.isEmpty then floatNames.contains s else sfx == s
   | .str _, .refTo (.path s) => s == "str"
@@ -304,19 +304,19 @@ def litHasType : LitV → TyShape → Bool
   | _, _ => false
 
 /-- a type is never spelled with an empty path -/
-def spelled : TyShape → Bool
+def spelled : Attr.TyShape → Bool
   | .path s => !s.isEmpty
   | .refTo t => spelled t
   | .arrayOf t => spelled t
   | .other => true
 
-theorem keepsBare_sound (l : LitV) (ty : TyShape) (hs : spelled ty = true) (h : keepsBare l (some ty) = true) :
+theorem keepsBare_sound (l : Attr.LitV) (ty : Attr.TyShape) (hs : spelled ty = true) (h : Attr.keepsBare l (some ty) = true) :
     litHasType l ty = true := by
   cases l with
   | int a sfx =>
     cases ty with
     | path s =>
-      simp only [keepsBare, Bool.or_eq_true, Bool.and_eq_true, beq_iff_eq] at h
+      simp only [Attr.keepsBare, Bool.or_eq_true, Bool.and_eq_true, beq_iff_eq] at h
       simp only [litHasType]
       by_cases he : sfx.isEmpty = true
       · simp only [he, if_true]
@@ -327,11 +327,11 @@ theorem keepsBare_sound (l : LitV) (ty : TyShape) (hs : spelled ty = true) (h : 
         rcases h with h | h
         · exact h
         · exact absurd h.1 he
-    | _ => simp [keepsBare] at h
+    | _ => simp [Attr.keepsBare] at h
   | float sfx =>
     cases ty with
     | path s =>
-      simp only [keepsBare, Bool.or_eq_true, Bool.and_eq_true, beq_iff_eq] at h
+      simp only [Attr.keepsBare, Bool.or_eq_true, Bool.and_eq_true, beq_iff_eq] at h
       simp only [litHasType]
       by_cases he : sfx.isEmpty = true
       · simp only [he, if_true]
@@ -342,30 +342,30 @@ theorem keepsBare_sound (l : LitV) (ty : TyShape) (hs : spelled ty = true) (h : 
         rcases h with h | h
         · exact h
         · exact absurd h.1 he
-    | _ => simp [keepsBare] at h
+    | _ => simp [Attr.keepsBare] at h
   | str i =>
     cases ty with
-    | refTo t => cases t <;> simp_all [keepsBare, litHasType]
-    | _ => simp [keepsBare] at h
-  | bool b => cases ty <;> simp_all [keepsBare, litHasType]
-  | char => cases ty <;> simp_all [keepsBare, litHasType]
-  | byte => cases ty <;> simp_all [keepsBare, litHasType]
+    | refTo t => cases t <;> simp_all [Attr.keepsBare, litHasType]
+    | _ => simp [Attr.keepsBare] at h
+  | bool b => cases ty <;> simp_all [Attr.keepsBare, litHasType]
+  | char => cases ty <;> simp_all [Attr.keepsBare, litHasType]
+  | byte => cases ty <;> simp_all [Attr.keepsBare, litHasType]
   | byteStr =>
     cases ty with
     | refTo t =>
       cases t with
-      | arrayOf u => cases u <;> simp_all [keepsBare, litHasType]
-      | _ => simp [keepsBare] at h
-    | _ => simp [keepsBare] at h
-  | other => simp [keepsBare] at h
+      | arrayOf u => cases u <;> simp_all [Attr.keepsBare, litHasType]
+      | _ => simp [Attr.keepsBare] at h
+    | _ => simp [Attr.keepsBare] at h
+  | other => simp [Attr.keepsBare] at h
 
-theorem keepsBare_complete (l : LitV) (ty : TyShape) (h : litHasType l ty = true) : keepsBare l (some ty) = true := by
+theorem keepsBare_complete (l : Attr.LitV) (ty : Attr.TyShape) (h : litHasType l ty = true) : Attr.keepsBare l (some ty) = true := by
   cases l with
   | int a sfx =>
     cases ty with
     | path s =>
       simp only [litHasType] at h
-      simp only [keepsBare, Bool.or_eq_true, Bool.and_eq_true, beq_iff_eq]
+      simp only [Attr.keepsBare, Bool.or_eq_true, Bool.and_eq_true, beq_iff_eq]
       by_cases he : sfx.isEmpty = true
       · simp only [he, if_true] at h; exact Or.inr ⟨he, h⟩
       · simp only [he, Bool.false_eq_true, if_false, beq_iff_eq] at h; exact Or.inl h
@@ -374,47 +374,47 @@ theorem keepsBare_complete (l : LitV) (ty : TyShape) (h : litHasType l ty = true
     cases ty with
     | path s =>
       simp only [litHasType] at h
-      simp only [keepsBare, Bool.or_eq_true, Bool.and_eq_true, beq_iff_eq]
+      simp only [Attr.keepsBare, Bool.or_eq_true, Bool.and_eq_true, beq_iff_eq]
       by_cases he : sfx.isEmpty = true
       · simp only [he, if_true] at h; exact Or.inr ⟨he, h⟩
       · simp only [he, Bool.false_eq_true, if_false, beq_iff_eq] at h; exact Or.inl h
     | _ => simp [litHasType] at h
   | str i =>
     cases ty with
-    | refTo t => cases t <;> simp_all [keepsBare, litHasType]
+    | refTo t => cases t <;> simp_all [Attr.keepsBare, litHasType]
     | _ => simp [litHasType] at h
-  | bool b => cases ty <;> simp_all [keepsBare, litHasType]
-  | char => cases ty <;> simp_all [keepsBare, litHasType]
-  | byte => cases ty <;> simp_all [keepsBare, litHasType]
+  | bool b => cases ty <;> simp_all [Attr.keepsBare, litHasType]
+  | char => cases ty <;> simp_all [Attr.keepsBare, litHasType]
+  | byte => cases ty <;> simp_all [Attr.keepsBare, litHasType]
   | byteStr =>
     cases ty with
     | refTo t =>
       cases t with
-      | arrayOf u => cases u <;> simp_all [keepsBare, litHasType]
+      | arrayOf u => cases u <;> simp_all [Attr.keepsBare, litHasType]
       | _ => simp [litHasType] at h
     | _ => simp [litHasType] at h
   | other => simp [litHasType] at h
 
 /-- **The conversion is applied exactly when the field type is not the literal's natural type**; anything that is not
     a bare literal is used as written, and a type-level expression (no field type) always converts a literal. -/
-theorem adjust_converts_iff (text : String) (l : LitV) (ty : TyShape) (hs : spelled ty = true) :
-    (adjust (text, some l) (some ty)).2 = !litHasType l ty := by
-  simp only [adjust]
+theorem adjust_converts_iff (text : String) (l : Attr.LitV) (ty : Attr.TyShape) (hs : spelled ty = true) :
+    (Attr.adjust (text, some l) (some ty)).2 = !litHasType l ty := by
+  simp only [Attr.adjust]
   cases h : litHasType l ty
-  · cases h2 : keepsBare l (some ty)
+  · cases h2 : Attr.keepsBare l (some ty)
     · rfl
     · rw [keepsBare_sound l ty hs h2] at h; cases h
   · rw [keepsBare_complete l ty h]
 
-theorem adjust_non_literal (text : String) (ty : Option TyShape) : adjust (text, none) ty = (text, false) := rfl
+theorem adjust_non_literal (text : String) (ty : Option Attr.TyShape) : Attr.adjust (text, none) ty = (text, false) := rfl
 
-theorem adjust_type_level (text : String) (l : LitV) : (adjust (text, some l) none).2 = true := by
-  cases l <;> simp [adjust, keepsBare]
+theorem adjust_type_level (text : String) (l : Attr.LitV) : (Attr.adjust (text, some l) none).2 = true := by
+  cases l <;> simp [Attr.adjust, Attr.keepsBare]
 
-example : (adjust ("5", some (.int (some 5) "")) (some (.path "u16"))).2 = false := by decide
-example : (adjust ("5u8", some (.int (some 5) "u8")) (some (.path "u16"))).2 = true := by decide
-example : (adjust ("5", some (.int (some 5) "")) (some (.path "W"))).2 = true := by decide
+example : (Attr.adjust ("5", some (.int (some 5) "")) (some (.path "u16"))).2 = false := by decide
+example : (Attr.adjust ("5u8", some (.int (some 5) "u8")) (some (.path "u16"))).2 = true := by decide
+example : (Attr.adjust ("5", some (.int (some 5) "")) (some (.path "W"))).2 = true := by decide
 
-end Attr
+end LiteralConversion
 
 end Educe
